@@ -1,8 +1,9 @@
 SPECIFICATION Spec
-CONSTANTS Decimals = 6  NoClose = FALSE  AlwaysTxt = FALSE
+CONSTANTS Decimals = 6  NoClose = FALSE  AlwaysTxt = FALSE  RawHeader = FALSE
 CHECK_DEADLOCK FALSE
 INVARIANT PathRule
 INVARIANT Shape
+INVARIANT OneHeaderLine
 INVARIANT ParsedIsRound6
 INVARIANT TextIsFmt6
 INVARIANT ClosedPolyline
